@@ -233,6 +233,19 @@ def long_cases(alpha, kind, calls):
                 toks = [pat[i % p] for i in range(length)]
                 yield {"kind": kind, "toks": toks, "calls": calls}
                 yield {"kind": kind, "toks": toks, "groups": [1 + (i % 5 == 0) for i in range(length)], "calls": calls}
+    # three and four groups of UNEQUAL sizes whose first size times the number of groups equals the row count
+    # (2,1,3 / 3,5,1 ...), contiguous and interleaved: a "balanced groups" shortcut must not take these
+    for sizes in ((2, 1, 3), (3, 1, 2), (1, 3, 2), (2, 2, 1, 3), (3, 5, 1)):
+        n = sum(sizes)
+        contiguous = [g for g, sz in enumerate(sizes, 1) for _ in range(sz)]
+        interleaved = [contiguous[(i * 5) % n] for i in range(n)] if n % 5 else list(reversed(contiguous))
+        for p in (2, 3):
+            for pat in itertools.product(alpha, repeat=p):
+                if len(set(pat)) < 2:
+                    continue
+                toks = [pat[i % p] for i in range(n)]
+                yield {"kind": kind, "toks": toks, "groups": contiguous, "calls": calls}
+                yield {"kind": kind, "toks": toks, "groups": interleaved, "calls": calls}
 
 
 def run_shard(shard, rec):
